@@ -53,6 +53,9 @@ message Cfg {
   optional google.protobuf.Any any = 22;
   optional uint32 u32 = 23;
   optional int64 i64 = 24;
+  optional group Grp2 = 25 {
+    optional int32 gi2 = 1;
+  }
   optional int32 src_i = 30 [retention = RETENTION_SOURCE];
   optional Cfg src_child = 31 [retention = RETENTION_SOURCE];
   repeated string src_rs = 32 [retention = RETENTION_SOURCE];
